@@ -44,6 +44,9 @@ finally:
     subprocess.run('git -C /repo worktree remove --force %s' % wt, shell=True)
 # run the checks against /repo with the change applied
 res = {}
+# the evidence files must come from runs on the unchanged tree: keep them aside while the change is applied
+evbak = '/var/tmp/evidence.keep.%d' % os.getpid()
+shutil.copytree(os.path.join(ROOT, 'evidence'), evbak)
 rc, out = sh('git -C /repo apply %s' % patch)
 assert rc == 0, out
 try:
@@ -59,6 +62,8 @@ try:
                 break
 finally:
     sh('git -C /repo checkout -- .')
+    shutil.rmtree(os.path.join(ROOT, 'evidence'))
+    shutil.move(evbak, os.path.join(ROOT, 'evidence'))
 meta['checks'] = res
 meta['caught_by'] = [c for c, r in res.items() if r['exit'] == 1]
 notes = open(os.path.join(src, 'notes.md')).read() if os.path.exists(os.path.join(src, 'notes.md')) else ''
